@@ -70,6 +70,20 @@ ANum(a) ==
       [] a[1] = "s" -> (LET r == StrAsInt(a[2]) IN
                         IF r[1] # "ok" THEN r ELSE IF SmallNum(N(r[2])) THEN VOk(N(r[2])) ELSE VUndef)
       [] OTHER -> VErr
+(* luaL_checknumber for ldexp / frexp: any representable dyadic double *)
+ANumWide(a) ==
+    CASE a[1] \in {"n", "q"} -> (IF WideNum(a) /\ Representable(a) THEN VOk(a) ELSE VUndef)
+      [] OTHER -> ANum(a)
+(* (double)luaL_checknumber as the view the floating conversions of format use *)
+FinOf(i) == <<"fin", i < 0, Abs(i), 0>>
+AFlt(a) ==
+    CASE a[1] = "n" -> VOk(FinOf(a[2]))
+      [] a[1] = "q" -> (IF a[2] >= -1073741823 /\ a[2] <= 1073741823 /\ a[3] >= -16 /\ a[3] <= 64
+                        THEN VOk(<<"fin", a[2] < 0, Abs(a[2]), a[3]>>) ELSE VUndef)
+      [] a[1] = "inf" -> VOk(<<"inf", a[2] < 0>>)
+      [] a[1] = "nan" -> VUndef
+      [] a[1] = "s" -> (LET r == StrAsInt(a[2]) IN IF r[1] # "ok" THEN r ELSE VOk(FinOf(r[2])))
+      [] OTHER -> VErr
 (* (long)luaL_checknumber: C conversion truncates toward zero *)
 ALong(a) ==
     CASE a[1] = "n" -> VOk(a[2])
@@ -128,10 +142,11 @@ Eval(f, args) ==
             IF s[1] # "ok" THEN s
             ELSE LET nums == [k \in 1..(Len(args) - 1) |-> ALong(args[k + 1])]
                      strs == [k \in 1..(Len(args) - 1) |-> AStr(args[k + 1])]
-                     r == Format(s[2], nums, strs)
+                     flts == [k \in 1..(Len(args) - 1) |-> AFlt(args[k + 1])]
+                     r == Format(s[2], nums, strs, flts)
                  IN IF r[1] # "ok" THEN r ELSE VOk(<<S(r[2])>>))
       [] f \in {"floor", "ceil", "abs", "modf", "frexp", "sqrt"} ->
-           (LET x == ANum(a1) IN
+           (LET x == IF f = "frexp" THEN ANumWide(a1) ELSE ANum(a1) IN
             IF x[1] # "ok" THEN x
             ELSE CASE f = "floor" -> VOk(MFloor(x[2]))
                    [] f = "ceil" -> VOk(MCeil(x[2]))
@@ -144,9 +159,9 @@ Eval(f, args) ==
             IN IF st # "ok" THEN <<st>>
                ELSE IF f = "fmod" THEN VOk(MFmod(x[2], y[2])) ELSE MWrap(MPow(x[2], y[2])))
       [] f = "ldexp" ->
-           (LET x == ANum(a1)  k == AInt(a2)  st == Status(<<x, k>>)
+           (LET x == ANumWide(a1)  k == AInt(a2)  st == Status(<<x, k>>)
             IN IF st # "ok" THEN <<st>>
-               ELSE IF k[2] < -64 \/ k[2] > 64 THEN VUndef
+               ELSE IF k[2] < -5000 \/ k[2] > 5000 THEN VUndef
                ELSE VOk(MLdexp(x[2], k[2])))
       [] f \in {"max", "min"} ->
            (IF Len(args) = 0 THEN VErr
